@@ -8,6 +8,7 @@ package mimefam
 import (
 	"bytes"
 	"crypto/sha256"
+	"crypto/x509"
 	"encoding/hex"
 	"encoding/json"
 	"errors"
@@ -64,6 +65,7 @@ type Prog struct {
 	Atts     []FileSpec `json:"atts"`
 	Boundary string     `json:"boundary"` // "" random, fixed
 	Hdrs     []HdrSpec  `json:"hdrs"`
+	Smime    SmimeSpec  `json:"smime"` // S/MIME signing (C08); Key "" = unsigned
 }
 
 // Fault describes a render fault (C12).
@@ -82,6 +84,8 @@ type Scenario struct {
 	Tree  json.RawMessage `json:"tree"` // model's prediction (conformance)
 	// RoundTrip: parse the rendering with the library's EML parser and render again (C10)
 	RoundTrip bool `json:"roundtrip"`
+	// Predict: outcome predicted by Smime.tla (conformance)
+	Predict json.RawMessage `json:"predict"`
 }
 
 func clipS(s string, n int) string {
@@ -291,9 +295,13 @@ func chunkSize(prod string) (int, bool) {
 type chunkSeeker struct {
 	r *bytes.Reader
 	n int
+	b *Broken
 }
 
 func (c *chunkSeeker) Read(p []byte) (int, error) {
+	if c.b != nil && c.b.On {
+		return 0, errProducer
+	}
 	if len(p) > c.n {
 		p = p[:c.n]
 	}
@@ -376,6 +384,8 @@ type Built struct {
 	HdrWant    map[string]string // field name -> value that was set (whitespace-normalised compare)
 	SetErr     []string          // setters that rejected their value
 	Broken     *Broken
+	Smime      SmimeSpec
+	Mat        *Material
 	usesToggle bool // at least one producer honours the Broken switch
 	cleanup    []func()
 }
@@ -455,6 +465,26 @@ func Build(p Prog, seed int64, failSlot int, failWhen string, tmpdir string) (*B
 				names["Cc"] = true
 				b.HdrWant["Cc:list"] = "cc1@to.test,Carbon Copy <cc2@to.test>"
 			}
+		case "genempty": // a generic header without any value
+			m.SetGenHeader(mail.Header("X-Verif-Empty"))
+		case "genmulti": // a generic header with several values
+			m.SetGenHeader(mail.Header("X-Verif-Multi"), v, "second value", v)
+			names["X-Verif-Multi"] = true
+		case "toignore": // every address is invalid: the list stays empty
+			m.ToIgnoreInvalid("not an address", "@@")
+			delete(names, "To")
+		case "ccignore":
+			m.CcIgnoreInvalid("not an address")
+		case "ccsome":
+			m.CcIgnoreInvalid("not an address", "cc-ok@to.test")
+			names["Cc"] = true
+		case "preform": // preformatted header, written as it is
+			pv := v
+			if h.Val == "multiline" {
+				pv = "first line\r\n second line\r\n\tthird line"
+			}
+			m.SetGenHeaderPreformatted(mail.Header("X-Verif-Pre"), pv)
+			names["X-Verif-Pre"] = true
 		case "mdnname":
 			if err := m.RequestMDNToFormat(v, "mdn@from.test"); err != nil {
 				b.SetErr = append(b.SetErr, "mdnname")
@@ -643,7 +673,7 @@ func Build(p Prog, seed int64, failSlot int, failWhen string, tmpdir string) (*B
 				if n <= 0 {
 					n = 1 + rng.Intn(50)
 				}
-				rs = &chunkSeeker{r: bytes.NewReader(content), n: n}
+				rs = &chunkSeeker{r: bytes.NewReader(content), n: n, b: b.Broken}
 			}
 			if embed {
 				m.EmbedReadSeeker(name, rs, fo...)
@@ -672,6 +702,24 @@ func Build(p Prog, seed int64, failSlot int, failWhen string, tmpdir string) (*B
 		if err := addFile(fs, false, i+1); err != nil {
 			return nil, err
 		}
+	}
+	if p.Smime.Key != "" {
+		ms, err := Materials()
+		if err != nil {
+			return nil, fmt.Errorf("signing material: %w", err)
+		}
+		mat := ms[p.Smime.Key]
+		if mat == nil {
+			return nil, fmt.Errorf("unknown signing material %q", p.Smime.Key)
+		}
+		var inter *x509.Certificate
+		if p.Smime.Inter {
+			inter = mat.Inter
+		}
+		if err := m.SignWithKeypair(mat.Key, mat.Leaf, inter); err != nil {
+			return nil, fmt.Errorf("SignWithKeypair: %w", err)
+		}
+		b.Smime, b.Mat = p.Smime, mat
 	}
 	for n := range names {
 		b.TopNames = append(b.TopNames, strings.ToLower(n))
@@ -755,7 +803,7 @@ func firstDiff(a, b []byte) int {
 }
 
 // Analyse emits line / section / tree / leaf / hdr events for one rendering.
-func Analyse(r *rec.Recorder, out []byte, b *Built) {
+func Analyse(r *rec.Recorder, out []byte, b *Built, tmpdir, tag string, k int) {
 	lines := mimeread.SplitLines(out)
 	for _, l := range lines {
 		// lexical facts only; the structure is decided by the TLA+ automata
@@ -800,9 +848,16 @@ func Analyse(r *rec.Recorder, out []byte, b *Built) {
 	if probs == nil {
 		probs = []string{}
 	}
+	inner := e
+	if b.Smime.Key != "" { // the signed entity is the first part of the multipart/signed wrapper
+		AnalyseSigned(r, out, e, b, tmpdir, tag, k)
+		if e.Multi == "signed" && len(e.Children) >= 1 {
+			inner = e.Children[0]
+		}
+	}
 	r.Emit("tree", "tree", TreeOf(e), "problems", probs)
 	var ls []*mimeread.Entity
-	leaves(e, &ls)
+	leaves(inner, &ls)
 	for i, lf := range ls {
 		if i >= len(b.Slots) {
 			r.Emit("leaf", "i", i+1, "eq", false, "why", "more leaves than slots")
@@ -966,9 +1021,13 @@ func (rn *Runner) Run() {
 	if len(tree) == 0 {
 		tree = json.RawMessage(`{"mp":"none"}`)
 	}
-	r.Emit("begin", "t", rn.T, "scn", sc.ID, "prog", progRaw, "slots", slotsRaw, "nslots", len(built.Slots),
+	predict := sc.Predict
+	if len(predict) == 0 {
+		predict = json.RawMessage(`{"ok":[]}`)
+	}
+	r.Emit("begin", "t", rn.T, "predict", predict, "haspredict", len(sc.Predict) > 0, "scn", sc.ID, "prog", progRaw, "slots", slotsRaw, "nslots", len(built.Slots),
 		"topnames", built.TopNames, "seterr", built.SetErr, "ptree", tree, "haspred", len(sc.Tree) > 0,
-		"fault", faultRaw, "ops", opsRaw)
+		"fault", faultRaw, "ops", opsRaw, "signed", sc.Prog.Smime.Key != "")
 
 	ids := map[string]int{}
 	ops := sc.Ops
@@ -977,7 +1036,11 @@ func (rn *Runner) Run() {
 	}
 	var first []byte
 	refLen := 0
-	var distinct [][]byte
+	type rendering struct {
+		k int
+		b []byte
+	}
+	var distinct []rendering
 	var reader *mail.Reader
 	for k, op := range ops {
 		var out bytes.Buffer
@@ -1070,9 +1133,15 @@ func (rn *Runner) Run() {
 		id := 0
 		if ok {
 			before := len(ids)
-			id = hashID(ids, out.Bytes())
-			if len(ids) > before && len(distinct) < 3 {
-				distinct = append(distinct, append([]byte{}, out.Bytes()...))
+			same := out.Bytes()
+			if built.Smime.Key != "" { // C11 for signed messages: the same signed entity
+				if e := mimeread.Parse(same); e.Multi == "signed" && len(e.Children) >= 1 {
+					same = e.Children[0].Raw
+				}
+			}
+			id = hashID(ids, same)
+			if (len(ids) > before || built.Smime.Key != "") && len(distinct) < 3 {
+				distinct = append(distinct, rendering{k + 1, append([]byte{}, out.Bytes()...)})
 			}
 			if first == nil {
 				first = append([]byte{}, out.Bytes()...)
@@ -1083,7 +1152,7 @@ func (rn *Runner) Run() {
 	}
 	for i, o := range distinct { // every distinct output is read back
 		r.Emit("render", "id", i+1, "second", false)
-		Analyse(r, o, built)
+		Analyse(r, o.b, built, rn.TmpDir, fmt.Sprintf("%d-%d", rn.T, i), o.k)
 	}
 	if sc.RoundTrip && first != nil {
 		RoundTrip(r, first, built)
